@@ -38,6 +38,27 @@ Proof.
     intros m; rewrite nmem_nunion; destruct (sp_origin sp), (sp_wrap sp); cbn [app nmem existsb andb orb]; rewrite ?orb_false_r; try reflexivity;
     rewrite ?(N.eqb_sym m); reflexivity.
 Qed.
+(* DECSC immediately followed by DECRC: everything is as before, except that a pending-wrap cursor comes back in the last column
+   and a cursor outside the scrolling region comes back inside it *)
+Lemma c14_round_trip a :
+  let a' := astep (astep a OSave) ORestore in
+  a_sp a' = a_sp a /\ a_cs a' = a_cs a /\ a_g0 a' = a_g0 a /\ a_g1 a' = a_g1 a /\ aattr a' = aattr a /\
+  cu_hidden (a_cur a') = cu_hidden (a_cur a) /\ ax a' = N.min (ax a) (a_cols a - 1) /\
+  ay a' = (match a_margins a with Some (t, b) => N.min (N.max (ay a) t) b | None => N.min (N.max (ay a) 0) (a_lines a - 1) end) /\
+  (forall m, amode a' m = amode a m) /\
+  a_grid a' = a_grid a /\ a_margins a' = a_margins a /\ a_tabs a' = a_tabs a /\ a_cols a' = a_cols a /\ a_lines a' = a_lines a.
+Proof.
+  cbv zeta. set (b := astep a OSave).
+  assert (E : a_sp b = mkSave (a_cur a) (a_g0 a) (a_g1 a) (a_cs a) (amode a DECOM) (amode a DECAWM) :: a_sp a) by reflexivity.
+  destruct (c14_restore_pop b _ _ E) as [h1 [h2 [h3 [h4 [h5 [h6 [h7 [h8 [h9 [h10 [h11 [h12 [h13 h14]]]]]]]]]]]]].
+  repeat split; try assumption.
+  intros mm. rewrite h9. cbn [sp_origin sp_wrap]. change (amode b mm) with (amode a mm).
+  destruct (N.eqb_spec mm DECOM) as [E1|N1].
+  - subst mm. change (DECOM =? DECAWM) with false. change (DECOM =? DECOM) with true. rewrite andb_false_r. destruct (amode a DECOM); reflexivity.
+  - destruct (N.eqb_spec mm DECAWM) as [E2|N2].
+    + subst mm. change (DECAWM =? DECOM) with false. change (DECAWM =? DECAWM) with true. rewrite andb_false_r. cbn [orb]. destruct (amode a DECAWM); reflexivity.
+    + rewrite !andb_false_r. reflexivity.
+Qed.
 Lemma c14_restore_empty a : a_sp a = [] ->
   astep a ORestore = a_cup (a_with_mode a (nrem DECOM (a_mode a))) None None.
 Proof. intros E. cbn [Spec.astep]. unfold a_restore. rewrite E. reflexivity. Qed.
